@@ -42,7 +42,7 @@ pub fn mm_shuffle_epi8_def(a: __m128i, m: __m128i) -> __m128i {
     }
     unsafe { core::mem::transmute(r) }
 }
-// @harness props=C16 kind=full tier=thorough timeout=1500
+// @attempt (not run: no verdict within 25 minutes of CBMC) props=C16 kind=full tier=thorough timeout=1500
 #[kani::proof]
 #[kani::stub(core::arch::x86_64::_mm_add_epi32, mm_add_epi32_def)]
 #[kani::stub(core::arch::x86_64::_mm_shuffle_epi8, mm_shuffle_epi8_def)]
